@@ -135,6 +135,7 @@ func genC10(rt *rapid.T, h *harness.H) interface{} {
 	if ill == nil && d.Chance(35, "inline") {
 		m := g.GenMode()
 		t := g.AnnType(m, 2, env)
+		t0 := t.Clone() // the type as drawn, before any defect
 		if d.Chance(30, "inline-defect") {
 			tmp := []*ast.Decl{{Kind: ast.DType, Name: "Tmp", Ty: t}}
 			cl := d.Of([]string{"undefined", "dup-label", "unknown-mode", "mode-change", "shift-pair"}, "iclass")
@@ -145,8 +146,17 @@ func genC10(rt *rapid.T, h *harness.H) interface{} {
 		}
 		if _, ill2 := env.ResolveAnn(t, "signature of v"); ill2 != nil {
 			ill = ill2
+		} else {
+			t0 = t.Clone() // the edit left a well-formed (possibly different) type: use it everywhere
 		}
-		extra = fmt.Sprintf("let v(x : %s) : %s = fwd self x\n", t.Text(), t.Text())
+		switch d.Pick(3, "inlinepos") {
+		case 0:
+			extra = fmt.Sprintf("let v(x : %s) : %s = fwd self x\n", t.Text(), t.Text())
+		case 1: // annotation of a cut whose body is a call; everything around it has the type as drawn
+			extra = fmt.Sprintf("let mk(x : %s) : %s = fwd self x\nlet v(x : %s) : %s =\n    y : %s <- new mk(x);\n    fwd self y\n", t0.Text(), t0.Text(), t0.Text(), t0.Text(), t.Text())
+		default: // type of a top-level process that only forwards an assumed name of the type as drawn
+			extra = fmt.Sprintf("assuming zz : %s\nprc[pv] : %s = fwd self zz\n", t0.Text(), t.Text())
+		}
 	}
 	c.Text = typesProgram(decls, users) + extra
 	if ill != nil {
